@@ -125,8 +125,19 @@ def validate_table(run, path, checked, label, timeout=3000):
 def validate_all(run, files, checked):
     """All chunks of the observed table, PAR TLC processes at a time. Returns ([(file, line, pred)], summed counters, accepted tables)."""
     t = 900 if run.tier == "quick" else 3000
-    with concurrent.futures.ThreadPoolExecutor(max_workers=PAR) as ex:
-        res = list(ex.map(lambda a: validate_table(run, a[1], checked, "tv-%03d" % a[0], t), enumerate(files)))
+    # many single-worker JVMs side by side: without a cap every one of them starts one GC thread per core and they starve each other
+    saved = os.environ.get("JAVA_TOOL_OPTIONS")
+    os.environ["JAVA_TOOL_OPTIONS"] = ((saved + " ") if saved else "") + "-XX:ParallelGCThreads=2 -Xmx8g"
+    try:
+        with concurrent.futures.ThreadPoolExecutor(max_workers=PAR) as ex:
+            # the chunks of random rows come last in the table and take longest: they are started first
+            futs = {i: ex.submit(validate_table, run, f, checked, "tv-%03d" % i, t) for i, f in reversed(list(enumerate(files)))}
+            res = [futs[i].result() for i in range(len(files))]
+    finally:
+        if saved is None:
+            del os.environ["JAVA_TOOL_OPTIONS"]
+        else:
+            os.environ["JAVA_TOOL_OPTIONS"] = saved
     viols, total, accepted, lines = [], {}, 0, 0
     for f, (v, done) in zip(files, res):
         viols += [(f, l, p) for l, p in v]
@@ -310,7 +321,7 @@ def run_c12(run):
         raise Infra("generation: %d strings in the table, %d expected" % (tables[0][1], nstr))
     # the real code on every table row and on seeded random inputs
     st = run.harness(["wire12", "-in", ",".join(t[0] for t in tables), "-seed", str(run.seed), "-rand", str(nrand), "-big", "-out", os.path.join(run.dir, "obs12"),
-                      "-chunk", "12000" if quick else "40000"])
+                      "-chunk", "10000" if quick else "40000", "-rchunk", "1500" if quick else "12000"])
     files = st["files"]
     ntab = sum(t[1] for t in tables)
     if st["sources"].get("table", 0) != ntab:
@@ -356,7 +367,7 @@ def run_c14(run):
     if not info["complete"]:
         raise Infra("the law configuration was not explored completely")
     st = run.harness(["wire14", "-in", table, "-seed", str(run.seed), "-rand", str(nrand), "-exh", "3", "-out", os.path.join(run.dir, "obs14"),
-                      "-chunk", "6000" if quick else "20000"])
+                      "-chunk", "6000" if quick else "20000", "-rchunk", "2500" if quick else "16000"])
     files = st["files"]
     if st["sources"].get("table", 0) != ntab:
         raise Infra("the harness executed %d table rows, TLC generated %d" % (st["sources"].get("table", 0), ntab))
